@@ -21,10 +21,11 @@ META = {
         "proxy and transport keep the caller's Config object itself, so a class registered in its local table later is seen, and "
         "every constructor receiving a config hands that object to the package constructors it calls (pooled server, CGI handler, transports); "
         "C07.8 the class instantiated by load is the entry of the caller's class table or the attribute read from the module imported in that "
-        "very call (no remembered class objects: the class currently bound to the name is the one instantiated).; C07.9 (imported C15.3) the type tables that decide which field values are dumped equal the specification (None, bool, numbers, strings, containers) C07.10 (imported from C02.6 / C17.3) for objects travelling over RPC: the JSON backend is called with the object alone (ASCII-only output) and both sides accumulate the raw reads and decode the joined bytes once - a bean with non-ASCII text survives whatever the chunking."),
+        "very call (no remembered class objects: the class currently bound to the name is the one instantiated).; C07.9 (imported C15.3) the type tables that decide which field values are dumped equal the specification (None, bool, numbers, strings, containers) C07.10 (imported from C02.6 / C17.3) for objects travelling over RPC: the JSON backend is called with the object alone (ASCII-only output) and both sides accumulate the raw reads and decode the joined bytes once - a bean with non-ASCII text survives whatever the chunking. C07.11 (imported from C20.3 / C20.5) the fields dumped for an object are its field set minus exactly the object's own ignore list and the ignore argument, and a field value is dropped only by the type test: nothing else (extra names or values added to the filter) removes a field whose value is a supported one."),
     "does_not_decide": "equality of the reloaded fields for generated class shapes, importability of the emitted class "
                        "name, enum/Decimal value fidelity (value-level round trip over a space of programs).",
-    "rules": {"C07.10": "imported C02.6 (backend call options), C17.3 (raw accumulation, one decode)",
+    "rules": {"C07.11": "imported C20.3 (ignore list term), C20.5 (field filter)",
+              "C07.10": "imported C02.6 (backend call options), C17.3 (raw accumulation, one decode)",
               "C07.9": "imported C15.3", "C07.1": "provenance of the classes argument at recursive call sites", "C07.2": "call-graph / loop structure",
               "C07.3": "shape interpreter on _slots_finder", "C07.4": "provenance of config arguments", "C07.5": "dominating isinstance branch of each constructor call",
               "C07.6": "sibling agreement Config.__init__/copy", "C07.7": "provenance of the stored config",
@@ -313,6 +314,18 @@ def check(ck):
     reg_attrs = set(sub_.attr for sub_ in ast.walk(fadd.node) if isinstance(sub_, ast.Attribute) and sub_.attr in ("__name__", "__qualname__"))
     if not name_attrs or not reg_attrs:
         raise AnalysisError("anchor vanished: the class-name attribute in jsonclass.dump / LocalClasses.add (%s / %s)" % (sorted(name_attrs), sorted(reg_attrs)))
+    # the registration replaces whatever was registered under the name (item store, not setdefault / conditional store)
+    gadd = cfg_of(fadd)
+    st_add = [n for n in gadd.live_nodes() if n.kind == "stmt" and isinstance(n.ast, ast.Assign) and isinstance(n.ast.targets[0], ast.Subscript) and
+              dump(n.ast.targets[0].value) == "self"]
+    cond_add = [n for n in st_add if any(gadd.nodes[i].kind == "branch" for i in dominators(gadd)[n.id])]
+    weak = [c for n in gadd.live_nodes() for c in node_calls(n) if isinstance(c.func, ast.Attribute) and dump(c.func.value) == "self" and
+            c.func.attr in ("setdefault", "update", "get")]
+    ck.require(len(st_add) == 1 and not cond_add and not weak and prov.origin(gadd, st_add[0], st_add[0].ast.value) == ("param", "cls"), "C07.8",
+               "%s: registration stores the class under the name" % q.fn(fadd), "self[name or cls.__name__] = cls, unconditionally",
+               "LocalClasses.add does not store the given class unconditionally (%s): registering a class under a name already in use keeps the "
+               "old class, and objects dumped as the new class are loaded as instances of the old one"
+               % (("`%s`" % dump(weak[0])[:40]) if weak else "conditional or missing item store"), q.loc(fadd, fadd.node))
     ck.require(name_attrs == set(["__name__"]) and reg_attrs == set(["__name__"]), "C07.8", "jsonclass.dump / config.LocalClasses.add: class name",
                "both use cls.__name__",
                "dump names the class by %s while the class table registers it by %s and load reads the module attribute of that name: a class whose "
@@ -350,3 +363,8 @@ def check(ck):
     common.import_rules(ck, _c02t, {"C02.6": "C07.10"})
     common.import_rules(ck, _c17t, {"C17.3": "C07.10"})
     ck.floor("C07.10", 6)
+
+    # ---- C07.11 nothing but the ignore lists and the type test drops a field (shared with C20.3 / C20.5) --------------------------
+    from rules import c20 as _c20f
+    common.import_rules(ck, _c20f, {"C20.3": "C07.11", "C20.5": "C07.11"})
+    ck.floor("C07.11", 5)
